@@ -189,6 +189,26 @@ func New(p *core.Program) *Interp {
 	return in
 }
 
+// unhashable reports whether a map key would make the Go runtime panic: an
+// interface key whose dynamic value is, or contains by value, a slice or a map.
+func unhashable(v Value) bool {
+	switch x := v.(type) {
+	case *Slice:
+		return true
+	case *Map:
+		return true
+	case *Rec:
+		if x != nil {
+			for _, fv := range x.Fields {
+				if unhashable(fv) {
+					return true
+				}
+			}
+		}
+	}
+	return false
+}
+
 // funcValue makes a callable value of a declared function or method (used as a
 // value: stored in a table, passed as an argument). A stub registered under the
 // function's name takes precedence, exactly as for a direct call.
@@ -200,7 +220,23 @@ func (in *Interp) funcValue(fn *types.Func, recv Value) Value {
 	}
 	if sig.Recv() != nil {
 		if _, isIface := sig.Recv().Type().Underlying().(*types.Interface); isIface {
-			return nil
+			// method value of an interface: dispatch when called
+			return &Stub{Name: name, Fn: func(in *Interp, args []Value) ([]Value, error) {
+				if st, ok := in.Stubs[name]; ok {
+					return st(in, recv, args)
+				}
+				if r, ok := recv.(*Rec); ok && r != nil && r.T != "" {
+					if i := strings.LastIndex(r.T, "."); i > 0 {
+						if st, ok := in.Stubs[r.T[:i]+"."+r.T[i+1:]+"."+fn.Name()]; ok {
+							return st(in, recv, args)
+						}
+						if target := in.Prog.Func(r.T[:i], r.T[i+1:]+"."+fn.Name()); target != nil {
+							return in.Call(target, recv, args)
+						}
+					}
+				}
+				return nil, &Unsupported{What: "method value " + name + " without a stub or a known dynamic type"}
+			}}
 		}
 	}
 	target := in.Prog.FuncOf(fn)
@@ -1139,6 +1175,9 @@ func (f *frame) assign(s *ast.AssignStmt) error {
 		if !isMap {
 			return unsup(s.Pos(), "comma-ok index on %T", xv)
 		}
+		if unhashable(kv) {
+			return panicf(s.Pos(), "runtime error: hash of unhashable type (a map key holding a slice)")
+		}
 		var v Value
 		found := false
 		if m != nil {
@@ -1273,6 +1312,9 @@ func (f *frame) store(l ast.Expr, v Value) error {
 			return err
 		}
 		if m, ok := xv.(*Map); ok && m != nil {
+			if unhashable(iv) {
+				return panicf(l.Pos(), "runtime error: hash of unhashable type (a map key holding a slice)")
+			}
 			ks := keyString(iv)
 			m.M[ks] = copyVal(v)
 			m.Keys[ks] = iv
@@ -1711,6 +1753,9 @@ func (f *frame) exprMulti(e ast.Expr) ([]Value, error) {
 			return []Value{int64(str[idx])}, nil
 		}
 		if m, ok := xv.(*Map); ok {
+			if unhashable(iv) {
+				return nil, panicf(e.Pos(), "runtime error: hash of unhashable type (a map key holding a slice)")
+			}
 			if m != nil {
 				if v, ok := m.M[keyString(iv)]; ok {
 					return []Value{v}, nil
